@@ -153,8 +153,10 @@ def replay_cvm(ctx, metrics, c, k):
         ctx.violation("ad:argument-modified", "sample sorted in place", case)
     if not (0 <= p1 <= 1) or abs(a1 - a2) > 1e-12 * max(1, abs(a1)) or abs(p1 - p2) > 1e-12:
         ctx.violation("ad:order-or-pvalue", "stat %r/%r p %r/%r" % (a1, a2, p1, p2), case)
-    if k % 50 == 0:
-        for bad in (np.append(s, 1.5), np.append(s, -0.1), np.append(s, np.nan)):
+    if k % 25 == 0:
+        for bad in (np.append(s, 1.5), np.append(s, -0.1), np.append(s, np.nan), np.append(s, [-0.1, 1.1]),
+                    np.append(s, [-0.3, -0.1, 1.2, 1.7]), np.array([-0.1, 0.5, 1.1]), np.array([1.0000001]), np.append(s, [np.inf]),
+                    np.append(s, [-np.inf, np.inf])):
             try:
                 metrics.anderson_darling_test(bad)
                 ctx.violation("ad:rejection", "data %s accepted" % bad.tolist(), case)
